@@ -318,3 +318,130 @@ Example parse_render_satisfiable :
              [mk_mdef (sa "m") (mk_args [(s_self, None); (sa "x", Some (sa "int"))] None [(sa "k", Some s_any)] (Some (sa "kw")))
                       (Some (sa "None"))]) = true.
 Proof. reflexivity. Qed.
+
+(* ---------------------------------------------------------------------------------------- *)
+(* the text the code builds is the rendering of the intended AST                            *)
+(* ---------------------------------------------------------------------------------------- *)
+Lemma or_any_truthy : forall s, truthy (or_any s) = true.
+Proof. intros [|c r]; reflexivity. Qed.
+
+Lemma typestr_truthy : forall a t, typestr a = Ok t -> truthy t = true.
+Proof. intros [st|st| |m n|s| |r|] t H; cbn [typestr] in H; try discriminate; injection H as <-; apply or_any_truthy. Qed.
+
+Definition no_star (s : str) : bool := negb (starts_star s).
+
+Lemma ident_no_star : forall n, is_ident n = true -> no_star n = true.
+Proof. intros n H. destruct (ident_first_not_star n H) as (c & r & -> & Hc). unfold no_star, starts_star. now rewrite Hc. Qed.
+
+Lemma assoc_star_none : forall (anns : list (str * aobj)) s,
+  forallb no_star (map fst anns) = true -> starts_star s = true -> assoc str_eqb s anns = None.
+Proof.
+  induction anns as [|[k a] r IH]; intros s H Hs; [reflexivity|].
+  cbn [map fst forallb] in H. apply andb_true_iff in H. destruct H as [Hk Hr].
+  cbn [assoc]. destruct (str_eqb s k) eqn:E; [|now apply IH].
+  apply str_eqb_eq in E. subst. unfold no_star in Hk. rewrite Hs in Hk. discriminate.
+Qed.
+
+Definition item_str (p : str * option str) : str := render_item (plain p).
+
+Lemma arg_item_plain : forall anns a, no_star a = true ->
+  arg_item anns a = fmap item_str (ann_pair anns a).
+Proof.
+  intros anns a H. unfold arg_item, ann_pair, fmap. destruct (assoc str_eqb a anns) as [o|].
+  - destruct (typestr o) as [t| |] eqn:E; cbn [bind]; [|reflexivity|reflexivity].
+    now rewrite (typestr_truthy _ _ E).
+  - unfold no_star in H. apply negb_true_iff in H. rewrite H. reflexivity.
+Qed.
+
+Lemma arg_item_star : forall anns s, forallb no_star (map fst anns) = true -> starts_star s = true ->
+  arg_item anns s = Ok s.
+Proof. intros anns s H Hs. unfold arg_item. rewrite (assoc_star_none _ _ H Hs), Hs. reflexivity. Qed.
+
+Lemma mapM_arg_items : forall anns l, forallb no_star l = true ->
+  mapM (arg_item anns) l = fmap (map item_str) (mapM (ann_pair anns) l).
+Proof.
+  induction l as [|a l IH]; intros H; [reflexivity|].
+  cbn [forallb] in H. apply andb_true_iff in H. destruct H as [Ha Hl].
+  cbn [mapM]. rewrite (arg_item_plain _ _ Ha), (IH Hl). unfold fmap.
+  destruct (ann_pair anns a); cbn [bind]; [|reflexivity|reflexivity].
+  destruct (mapM (ann_pair anns) l); reflexivity.
+Qed.
+
+Lemma mapM_app : forall {A B} (f : A -> res B) l1 l2,
+  mapM f (l1 ++ l2) = do a <- mapM f l1 ;; do b <- mapM f l2 ;; Ok (a ++ b).
+Proof.
+  induction l1 as [|x r IH]; intros l2.
+  - cbn [app mapM bind]. destruct (mapM f l2); reflexivity.
+  - cbn [app mapM]. rewrite IH. destruct (f x); cbn [bind]; [|reflexivity|reflexivity].
+    destruct (mapM f r); cbn [bind]; [|reflexivity|reflexivity]. destruct (mapM f l2); reflexivity.
+Qed.
+
+Lemma mapM_single : forall {A B} (f : A -> res B) x, mapM f [x] = do y <- f x ;; Ok [y].
+Proof. intros A B f x. cbn [mapM]. destruct (f x); reflexivity. Qed.
+
+Definition opt_ok (o : option str) : bool := match o with Some v => is_ident v | None => true end.
+
+(* the names getfullargspec reports are identifiers; the annotation keys are parameter names or "return" *)
+Definition spec_names_ok (sp : argspec) : bool :=
+  forallb is_ident (as_args sp) && forallb is_ident (as_kwonly sp) && opt_ok (as_varargs sp) && opt_ok (as_varkw sp)
+  && forallb is_ident (map fst (as_anns sp)).
+
+Lemma forallb_ident_no_star : forall l, forallb is_ident l = true -> forallb no_star l = true.
+Proof.
+  induction l as [|a l IH]; [reflexivity|]. cbn [forallb]. intros H. apply andb_true_iff in H. destruct H as [H1 H2].
+  now rewrite (ident_no_star _ H1), (IH H2).
+Qed.
+
+Lemma ret_text : forall anns (ann : str),
+  match assoc str_eqb s_return anns with Some a => ann ++ retval_annotation a | None => ann end
+  = ann ++ ret_str (ret_ann anns).
+Proof.
+  intros anns ann. unfold ret_ann, retval_annotation, ret_str. destruct (assoc str_eqb s_return anns) as [a|].
+  - destruct (typestr a) as [t| |]; [destruct (truthy t)|..]; now rewrite ?app_nil_r.
+  - now rewrite app_nil_r.
+Qed.
+
+Theorem method_text : forall key sp,
+  spec_names_ok sp = true -> known_F45 sp = false ->
+  method_annotation key sp = fmap render_def_body (method_ast key sp).
+Proof.
+  intros key [args va vk nd kwo kwd anns] Hn HF.
+  unfold spec_names_ok in Hn. cbn [as_args as_kwonly as_varargs as_varkw as_anns] in Hn.
+  repeat (apply andb_true_iff in Hn; let H := fresh "Hn" in destruct Hn as [Hn H]).
+  unfold known_F45 in HF. cbn [as_args] in HF. destruct args as [|a0 pos]; [discriminate|]. clear HF.
+  pose proof (forallb_ident_no_star _ Hn) as Hargs. pose proof (forallb_ident_no_star _ Hn3) as Hkw.
+  pose proof (forallb_ident_no_star _ Hn0) as Hanns.
+  cbn [forallb] in Hargs. apply andb_true_iff in Hargs. destruct Hargs as [Ha0 Hpos].
+  unfold method_annotation, method_ast. cbn [as_args as_kwonly as_varargs as_varkw as_anns].
+  destruct kwo as [|k0 ks].
+  - (* no keyword-only parameters *)
+    cbn [nonempty]. cbn [mapM]. rewrite (arg_item_plain _ _ Ha0), (mapM_arg_items _ _ Hpos). unfold fmap.
+    destruct (ann_pair anns a0) as [p0| |]; cbn [bind]; [|reflexivity|reflexivity].
+    destruct (mapM (ann_pair anns) pos) as [pos'| |]; cbn [bind]; [|reflexivity|reflexivity].
+    cbn [app]. rewrite ret_text. f_equal. rewrite render_def_body_eq. cbn [m_name m_args m_ret].
+    match goal with |- context [join s_comma (s_self :: ?R)] =>
+      assert (s_self :: R = map render_item (items_of (mk_args ((s_self, None) :: pos') va [] vk))) as Hit end.
+    { unfold items_of. cbn [a_args a_vararg a_kwonly a_kwarg map]. rewrite !map_app. cbn [map]. rewrite !map_map.
+      cbn [plain fst snd render_item app]. destruct va, vk; reflexivity. }
+    rewrite <- Hit. rewrite <- !app_assoc. cbn [app]. rewrite <- !app_assoc. reflexivity.
+  - (* keyword-only parameters: "*" or "*args" is inserted, varargs is consumed *)
+    cbn [nonempty].
+    set (st := match va with Some v => star v | None => [42] end).
+    assert (starts_star st = true) as Hst by (subst st; destruct va; reflexivity).
+    change (a0 :: pos) with ([a0] ++ pos). rewrite <- !app_assoc.
+    rewrite (mapM_app _ [a0]), (mapM_app _ pos), (mapM_app _ [st]), !mapM_single.
+    rewrite (arg_item_plain _ _ Ha0), (mapM_arg_items _ _ Hpos), (arg_item_star _ _ Hanns Hst), (mapM_arg_items _ _ Hkw).
+    unfold fmap.
+    destruct (ann_pair anns a0) as [p0| |]; cbn [bind]; [|reflexivity|reflexivity].
+    destruct (mapM (ann_pair anns) pos) as [pos'| |]; cbn [bind]; [|reflexivity|reflexivity].
+    destruct (mapM (ann_pair anns) (k0 :: ks)) as [kw'| |] eqn:Ekw; cbn [bind]; [|reflexivity|reflexivity].
+    cbn [app]. rewrite ret_text. f_equal. rewrite render_def_body_eq. cbn [m_name m_args m_ret].
+    assert (exists q qs, kw' = q :: qs) as (q & qs & ->).
+    { cbn [mapM] in Ekw. destruct (ann_pair anns k0); cbn [bind] in Ekw; try discriminate.
+      destruct (mapM (ann_pair anns) ks); cbn [bind] in Ekw; try discriminate. injection Ekw as <-. eauto. }
+    match goal with |- context [join s_comma (s_self :: ?R)] =>
+      assert (s_self :: R = map render_item (items_of (mk_args ((s_self, None) :: pos') va (q :: qs) vk))) as Hit end.
+    { unfold items_of. cbn [a_args a_vararg a_kwonly a_kwarg map]. rewrite !map_app. cbn [map]. rewrite !map_map.
+      cbn [plain fst snd render_item app]. subst st. rewrite <- !app_assoc. destruct va, vk; reflexivity. }
+    rewrite <- Hit. rewrite <- !app_assoc. cbn [app]. rewrite <- !app_assoc. reflexivity.
+Qed.
